@@ -1,5 +1,6 @@
 import Lean.Data.Json
 import OsloPolicy.Model.Enforce
+import OsloPolicy.Spec.Grammar
 import OsloPolicy.Generated.PyTables
 /-
 JSON-lines driver: one request per line on stdin, one answer per line on stdout.
@@ -115,6 +116,29 @@ def scopeTypesOf (j : Json) : Option (List Str) :=
   | .arr xs => some (xs.toList.filterMap fun x => match x with | .str s => some (s2l s) | _ => none)
   | _ => none
 
+mutual
+partial def toE2 (j : Json) : Except String (E 2) :=
+  match j.getObjVal? "leaf" with
+  | .ok (.str s) => pure (.leaf (parseCheck (s2l s)))
+  | _ => match j.getObjVal? "paren" with
+    | .ok e => do pure (.paren (← toE0 e))
+    | _ => match j.getObjVal? "not" with
+      | .ok e => do pure (.not (← toE2 e))
+      | _ => throw "bad E2"
+partial def toE1 (j : Json) : Except String (E 1) :=
+  match j.getObjVal? "up1" with
+  | .ok e => do pure (.up1 (← toE2 e))
+  | _ => match j.getObjVal? "and" with
+    | .ok (.arr #[a, b]) => do pure (.and (← toE1 a) (← toE2 b))
+    | _ => throw "bad E1"
+partial def toE0 (j : Json) : Except String (E 0) :=
+  match j.getObjVal? "up0" with
+  | .ok e => do pure (.up0 (← toE1 e))
+  | _ => match j.getObjVal? "or" with
+    | .ok (.arr #[a, b]) => do pure (.or (← toE0 a) (← toE1 b))
+    | _ => throw "bad E0"
+end
+
 def handle (j : Json) : Except String Json := do
   match getStrD j "op" with
   | "lex" =>
@@ -155,6 +179,16 @@ def handle (j : Json) : Except String Json := do
       pure (Json.str (outcomeStr out))
     pure (Json.mkObj [("out", .arr outs.toArray),
                       ("printed", Json.mkObj (rules.entries.map fun (k, t) => (l2s k, Json.str (l2s t.print))))])
+  | "spec_den" => do
+    -- {"e": <stratified expression>, "assign": [[true leaf texts…]…]} ↦ Boolean value of the
+    -- sentence under each assignment, computed by Spec.Grammar (not by the parser model)
+    let e ← toE0 (getD j "e")
+    let dens := (getArrD j "assign").toList.map fun a =>
+      let trues : List Str := match a with
+        | .arr xs => xs.toList.filterMap fun x => match x with | .str s => some (s2l s) | _ => none
+        | _ => []
+      Json.bool (e.den fun k m => trues.contains (k ++ ':' :: m))
+    pure (Json.mkObj [("den", .arr dens.toArray), ("render", .arr (e.render.map tokJson).toArray)])
   | op => throw s!"unknown op {op}"
 
 end Drv
